@@ -12,7 +12,7 @@ from .. import smc_common as sc
 
 ID = "C18"
 LEVEL = "exploration"
-BUDGET = {"quick": 700, "thorough": 16000}
+BUDGET = {"quick": 700, "thorough": 45000}
 SHARDS = {"quick": 8, "thorough": 16}
 RULE = (
     "case = SMC run (table proposal/likelihood, kernel double, any schedule option, namespace, width, n_final_samples) "
